@@ -1288,6 +1288,8 @@ class Expression(Expr):
                 # the intention was to really replace the parent of this expression.
                 if value.parent:
                     value.parent.replace(expression)
+                # This node is still stored in its parent; only the parent may have been replaced
+                return expression
             else:
                 parent.set(key, expression, self.index)
 
